@@ -42,7 +42,7 @@ def required(tier):
     req = ['fq2.%s.%s' % (op, fm) for op in ('add', 'sub', 'mul') for fm in FORMS]
     req += ['fq2.neg.v', 'fq2.neg.r', 'fq2.new', 'fq2.real', 'fq2.imaginary', 'fq2.is_even', 'fq2.is_zero', 'fq2.is_zero/zero',
             'fq2.to_slice', 'fq2.from_slice', 'fq2.eq', 'axiom.comm', 'axiom.assoc', 'axiom.distrib', 'axiom.one',
-            'sqr.hook', 'sqr.g2double', 'g2.mixed_add', 'sop.2', 'sop.4', 'carry.mul/0', 'carry.mul/1', 'carry.sop4/2']
+            'sqr.hook', 'sqr.g2double', 'g2.mixed_add', 'sop.2', 'sop.4', 'carry.mul/0', 'carry.mul/1', 'carry.sop4/2', 'mul/exact-cancellation']
     return req
 
 
@@ -64,11 +64,21 @@ def run(ctx, spec):
         x, cx = gen.fq2_value(rng)
         y, cy = gen.fq2_value(rng)
         z = rand2(rng)
-        k = rng.randrange(6)
+        k = rng.randrange(8)
         if k == 0:
             y = x
         elif k == 1:
             y = f2neg(x)
+        elif k in (6, 7) and x[0] and x[1]:
+            # exact cancellation: choose y so that one coefficient of x*y is exactly 0, 1 or q-1 although every partial product is non-zero
+            tgt = rng.choice([0, 0, 1, q - 1])
+            d = y[1] or 3
+            if k == 6:      # real part x0*c - 2*x1*d = tgt
+                c = (tgt + 2 * x[1] * d) * pow(x[0], -1, q) % q
+            else:           # imaginary part x0*d + x1*c = tgt
+                c = (tgt - x[0] * d) * pow(x[1], -1, q) % q
+            y = (c, d)
+            ctx.classes['mul/exact-cancellation'] += 1
         if kind in ('add', 'sub', 'mul'):
             fm = FORMS[rng.randrange(6)]
             v = f2add(x, y) if kind == 'add' else f2sub(x, y) if kind == 'sub' else f2mul(x, y)
@@ -169,6 +179,19 @@ def run(ctx, spec):
             else:
                 a = [gen.field_value(rng, q)[0] for _ in range(T)]
                 b = [gen.field_value(rng, q)[0] for _ in range(T)]
+            if rng.random() < 0.3:
+                # solve the last factor so that the Montgomery quotient digits of the accumulated sum follow a boundary pattern
+                K = gen._digit_pattern(rng)
+                Tt = (-K * q) % R
+                A = [rm.mont(v_, q) for v_ in a]
+                B = [rm.mont(v_, q) for v_ in b]
+                A[-1] |= 1
+                rest = sum(x_ * y_ for x_, y_ in zip(A[:-1], B[:-1]))
+                Bl = (Tt - rest) * pow(A[-1], -1, R) % R
+                if A[-1] < q and Bl < q:
+                    a[-1] = rm.unmont(A[-1], q)
+                    b[-1] = rm.unmont(Bl, q)
+                    ctx.count('sop:mont-digit-directed')
             v = sum(s * t_ for s, t_ in zip(a, b)) % q
             lines.append('_ sop.%d %s %s' % (T, ' '.join(h32(v_) for v_ in a), ' '.join(h32(v_) for v_ in b)))
             exp.append(('sop.%d' % T, 'ok ' + h32(v), ('sop', tuple(a), tuple(b)), True))
